@@ -232,6 +232,38 @@ def apply_config(mode="django", template_cache_size=128, cache_variant="default-
         djc_cache.template_cache = LRUCache(maxsize=None)
 
 
+_PRIVATE_REGISTRY = [None]
+PRIVATE_TAG = "pcomp"
+
+
+def component_tag():
+    """Start tag of the registry the generated components live in."""
+    return PRIVATE_TAG if _PRIVATE_REGISTRY[0] is not None else "component"
+
+
+def use_private_registry(mode):
+    """Generated components of this run go into a private ComponentRegistry (own Library among the engine's builtins,
+    RegistrySettings(context_behavior=mode)); the dynamic component is registered there as well."""
+    from django.template import Engine, Library
+
+    from django_components import ComponentRegistry, DynamicComponent, RegistrySettings
+    from django_components.tag_formatter import ComponentFormatter
+
+    lib = Library()
+    # (the library refuses two registries behind one start tag, so the private one gets a tag of its own)
+    reg = ComponentRegistry(library=lib, settings=RegistrySettings(context_behavior=mode,
+                                                                   tag_formatter=ComponentFormatter(PRIVATE_TAG)))
+    reg.register("dynamic", DynamicComponent)
+    Engine.get_default().template_builtins.append(lib)
+    _PRIVATE_REGISTRY[0] = reg
+    return reg
+
+
+def current_registry():
+    """The registry generated components are registered in (None = the library's default registry)."""
+    return _PRIVATE_REGISTRY[0]
+
+
 def media_cache_fault(kind, pick=None):
     """Inject loss into whatever backend the media cache currently is. Returns number of keys lost."""
     import django_components.cache as djc_cache
